@@ -435,8 +435,10 @@ pub fn value_sheet(c: usize, ks: &[usize], ws: &[bool]) -> Sheet {
     }
     for (i, k) in ks.iter().enumerate() {
         if i > 0 && ws[i] {
-            // in calc() the blanks around + and - carry meaning
-            let must = in_calc && (is_pm(&KINDS[ks[i - 1]]) || is_pm(&KINDS[*k]));
+            // the blanks around + and - carry meaning in calc() and in every value that may be substituted into one
+            // (custom properties, var() fallbacks, arguments of functions): they are kept in every declaration value
+            // (a media feature is written by the selector-aware routine, where nothing is promised next to a curly block)
+            let must = (in_calc || name != "media-feature") && (is_pm(&KINDS[ks[i - 1]]) || is_pm(&KINDS[*k]));
             sh.ws(must, name);
         }
         push_kind(&mut sh, &KINDS[*k], name, in_calc);
